@@ -311,7 +311,8 @@ def search_fixed(seed, n):
         before = poses(g)
         r = None
         try:
-            r = quiet_optimize(g, tol=rng.choice([0.0, 1e-6, 1e-2]), max_iter=rng.randrange(1, 8), fix_first_pose=ffp)
+            tol_, mi_ = rng.choice([0.0, 1e-6, 1e-2]), rng.randrange(1, 8)
+            r = quiet_optimize(g, tol=tol_, max_iter=mi_, fix_first_pose=ffp)
         except Exception as e:  # noqa
             return dict(kind="fixed", what="optimize raised %s" % type(e).__name__, match="optimize-raised", scenario=scenario, desc=desc), ev, outcomes
         ev += 1
@@ -349,12 +350,22 @@ def search_fixed(seed, n):
                 if np.all(np.isfinite(pr)) and not np.allclose(p1, pr, rtol=0, atol=1e-9 * (1 + np.max(np.abs(pr)))):
                     return dict(kind="fixed", what="second optimize call on the same Graph differs from a fresh Graph in the same state (stale fixed set?)", match="fixed-set-stale", scenario=scenario, vertex=v.id, fixed_now=bool(f), got=p1.tolist(), fresh=pr.tolist(), flags_before=flags1, flags_now=newflags, desc=desc), ev, outcomes
         if scenario == "isolated-fixed" and oc == "nan":
-            # the same graph without the extra fixed vertex must also be NaN, else fixing made it unsolvable
+            # the same graph without the extra fixed vertex - SAME fixed vertices (fix_first_pose may have picked the extra
+            # vertex or the graph's own first vertex, depending on where the extra one was inserted), same tol and max_iter -
+            # must also be NaN, else fixing made it unsolvable
+            fixed_ids = {v.id for v in g._vertices if v.fixed}
             d2 = dict(desc)
-            d2["vertices"] = [v for v in desc["vertices"] if v["id"] < 10**7]
+            d2["vertices"] = [dict(v, fixed=(v["id"] in fixed_ids)) for v in desc["vertices"] if v["id"] < 10**7]
             g2 = G.rebuild(d2)
-            r2 = quiet_optimize(g2, tol=0.0, max_iter=2, fix_first_pose=ffp)
-            if math.isfinite(float(r2.final_chi2)):
+            # "otherwise well-posed": the reduced Hessian of the graph without the extra vertex must be comfortably
+            # non-singular at the start (a rank-deficient system - e.g. a 3-D component anchored only at a landmark point -
+            # gives solver-dependent NaN / garbage either way and says nothing about the extra fixed vertex)
+            H2, _ = dense_normal_equations(g2)
+            free2 = [i for v in g2._vertices if not v.fixed for i in range(v.gradient_index, v.gradient_index + v.pose.COMPACT_DIMENSIONALITY)]
+            well = bool(free2) and np.all(np.isfinite(H2)) and np.linalg.cond(H2[np.ix_(free2, free2)]) < 1e8
+            r2 = quiet_optimize(g2, tol=tol_, max_iter=mi_, fix_first_pose=False)
+            outcomes["isolated-fixed:nan:reference-" + ("well-posed" if well else "ill-posed-skipped")] = outcomes.get("isolated-fixed:nan:reference-" + ("well-posed" if well else "ill-posed-skipped"), 0) + 1
+            if well and math.isfinite(float(r2.final_chi2)):
                 return dict(kind="fixed", what="an unconstrained fixed vertex made a well-posed problem unsolvable", match="fixed-vertex-singular", scenario=scenario, desc=desc), ev, outcomes
     return None, ev, outcomes
 
@@ -670,7 +681,12 @@ def _judge_convergence(g, desc, world, tol, noise_free, call, stats, iscale=1.0)
     if not float(r.final_chi2) <= chi0 * (1 + 1e-9) + 1e-12 * iscale:
         return w("final chi2 exceeds initial chi2", initial=chi0, final=float(r.final_chi2))[0], 0.0
     if not r.converged:
-        return w("did not converge within 100 iterations", num_iterations=r.num_iterations)[0], 0.0
+        # The property speaks about the state the run ends at (chi2 not above the initial one, decrement below the tolerance
+        # scale), not about the `converged` flag: a noise-free run reaches chi2 ~ 1e-27 and then wanders in rounding noise
+        # above tol * eps, so the documented relative test need not fire in 100 iterations although the state is optimal
+        # (seen in the thorough tier on the unchanged tree, seed 0).  Not converged is therefore judged by the same
+        # criteria below and only counted.
+        stats["limit_reached_judged_by_state"] = stats.get("limit_reached_judged_by_state", 0) + 1
     lam2, cond = newton_decrement(g)
     if lam2 is None:
         stats["skipped_ill_conditioned"] += 1
